@@ -6,6 +6,7 @@ import CbiVerif.Drv.Dups
 import CbiVerif.Drv.DbPath
 import CbiVerif.Drv.Exclude
 import CbiVerif.Drv.C08
+import CbiVerif.Drv.Argv
 /-! Native JSON-lines driver: one request object per line, one reply per line.
 Each area registers its ops in `CbiVerif/Drv/<Area>.lean`. -/
 open Lean
@@ -17,7 +18,8 @@ def handlerTable : List (String × (Json → Json)) :=
   CbiVerif.Drv.Dups.handlers ++
   CbiVerif.Drv.DbPath.handlers ++
   CbiVerif.Drv.Exclude.handlers ++
-  CbiVerif.Drv.C08.handlers
+  CbiVerif.Drv.C08.handlers ++
+  CbiVerif.Drv.Argv.handlers
 
 def handle (j : Json) : Json :=
   match j.getObjValAs? String "op" with
